@@ -1515,6 +1515,7 @@ class FortranFile:
                         continue
                     name, dims = self.parse_imp_dim(name)
                     name, char_len = self.parse_imp_char(name)
+                    var_kind = obj_info.var_kind
                     if dims:
                         # The array-spec of the entity overrides the DIMENSION
                         # attribute of the statement
@@ -1525,7 +1526,11 @@ class FortranFile:
                         ]
                         var_keywords.append(dims)
                     if char_len:
-                        desc += char_len
+                        # Likewise for the length of a CHARACTER entity
+                        if var_kind is None or not desc.upper().startswith("CHAR"):
+                            desc += char_len
+                        else:
+                            var_kind = self.override_char_len(var_kind, char_len)
 
                     name = name.strip()
                     keywords, keyword_info = map_keywords(var_keywords)
@@ -1549,7 +1554,7 @@ class FortranFile:
                             desc,
                             keywords,
                             keyword_info=keyword_info,
-                            kind=obj_info.var_kind,
+                            kind=var_kind,
                             link_obj=link_name,
                         )
                         # If the object is fortran_var and a parameter include
@@ -1842,6 +1847,56 @@ class FortranFile:
         elif match.group(2).isdigit():
             char_len = match.group(2)
         return match.group(1), f"*{char_len}"
+
+    @staticmethod
+    def override_char_len(selector: str, char_len: str) -> str:
+        """Selector of a CHARACTER entity that declares a length of its own
+
+        `character(len=5, kind=1) :: s*10` is a `character(len=10, kind=1)`
+
+        Parameters
+        ----------
+        selector : str
+            selector of the declaration statement, `(len=5, kind=1)` or `*5`
+        char_len : str
+            length of the entity as returned by `parse_imp_char`, `*10` or `*(10)`
+
+        Returns
+        -------
+        str
+            selector with the length replaced
+        """
+        selector = selector.strip()
+        if not (selector.startswith("(") and selector.endswith(")")):
+            return char_len
+        new_len = char_len[1:].strip()
+        if new_len.startswith("(") and new_len.endswith(")"):
+            new_len = new_len[1:-1].strip()
+        # Split the selector at its top level commas
+        items, depth, start = [], 0, 1
+        for i, char in enumerate(selector[:-1]):
+            if char == "(" and i > 0:
+                depth += 1
+            elif char == ")":
+                depth -= 1
+            elif char == "," and depth == 0:
+                items.append(selector[start:i])
+                start = i + 1
+        items.append(selector[start:-1])
+        replaced = False
+        for i, item in enumerate(items):
+            key_match = re.match(r"[ ]*(\w+)[ ]*=(?!=)", item)
+            key = key_match.group(1).lower() if key_match else None
+            if key == "len":
+                items[i] = f"{item[: key_match.end(0)]}{new_len}"
+                replaced = True
+            elif key is None and i == 0:
+                items[i] = new_len
+                replaced = True
+        if not replaced:
+            items.insert(0, f"len={new_len}")
+            items[1] = " " + items[1].lstrip()
+        return "(" + ",".join(items) + ")"
 
     def parse_end_scope_word(
         self, line: str, ln: int, file_ast: FortranAST, match: re.Match
